@@ -31,7 +31,10 @@ def run(ctx):
     # (status read before the slot is locked), collision with an operation of the same kind
     vlib.model_check_many(ctx, [dict(module_rel="stack/EliminationMC.tla", cfg_rel="stack/Elimination_q.cfg", workers=4),
                                 dict(module_rel="stack/EliminationMC.tla", cfg_rel="stack/Elimination_bad_statusbeforelock.cfg", workers=2, expect_violation="NoDup"),
-                                dict(module_rel="stack/EliminationMC.tla", cfg_rel="stack/Elimination_bad_nokindcheck.cfg", workers=2, expect_violation="Conservation")], par=3)
+                                dict(module_rel="stack/EliminationMC.tla", cfg_rel="stack/Elimination_bad_nokindcheck.cfg", workers=2, expect_violation="Conservation"),
+                                # FCElim.tla (FCStack: elimination inside fc_process with re-used publication records); refuted: seeded change C09b
+                                dict(module_rel="fc/FCElimMC.tla", cfg_rel="fc/FCElim_stack.cfg", workers=1),
+                                dict(module_rel="fc/FCElimMC.tla", cfg_rel="fc/FCElim_bad_wrongflag.cfg", workers=1, expect_violation="Conservation")], par=5)
     progs = list(PROGRAMS) + [gen_program(ctx.rng) for _ in range(1 if ctx.quick() else 6)]
     jobs = make_jobs(ctx, "stack", VARIANTS, progs)
     vlib.run_jobs(ctx, jobs)
